@@ -23,6 +23,11 @@ func (k Keeper) InitGenesis(ctx sdk.Context, data types.GenesisState) {
 
 	for _, pair := range data.TokenPairs {
 		k.AddTokenPair(ctx, pair)
+		// the alias index is not part of the genesis state: rebuild it from the bank metadata
+		if md, found := k.bankKeeper.GetDenomMetaData(ctx, pair.Denom); found &&
+			len(md.DenomUnits) > 0 && len(md.DenomUnits[0].Aliases) > 0 {
+			k.SetAliasesDenom(ctx, pair.Denom, md.DenomUnits[0].Aliases...)
+		}
 	}
 
 	if _, found := k.GetTokenPair(ctx, fxtypes.DefaultDenom); !found {
